@@ -6,11 +6,11 @@ import (
 	"context"
 	"errors"
 	"fmt"
-	"net"
 	"net/http"
 	"net/http/httptest"
 	"strings"
 	"sync"
+	"syscall"
 	"time"
 
 	"github.com/prometheus/client_golang/prometheus"
@@ -46,7 +46,8 @@ var modes = []mode{
 var endpoints = []string{"query", "query_range", "config", "flags", "metadata"}
 
 type upstream struct {
-	done chan struct{}
+	boundFD int
+	done    chan struct{}
 	srv  *httptest.Server
 	uri  string
 	mu   sync.Mutex
@@ -69,14 +70,23 @@ func payload(endpoint string, idx int) string {
 }
 
 func newUpstream(idx int, m mode) *upstream {
-	u := &upstream{done: make(chan struct{})}
+	u := &upstream{done: make(chan struct{}), boundFD: -1}
 	if m.name == "refused" {
-		l, err := net.Listen("tcp", "127.0.0.1:0")
+		// a socket that is bound but never listens: connections are refused and, unlike a closed listener,
+		// the port cannot be handed to the next upstream's server while this case runs
+		fd, err := syscall.Socket(syscall.AF_INET, syscall.SOCK_STREAM, 0)
 		if err != nil {
 			panic(err)
 		}
-		u.uri = "http://" + l.Addr().String()
-		l.Close()
+		if err := syscall.Bind(fd, &syscall.SockaddrInet4{Port: 0, Addr: [4]byte{127, 0, 0, 1}}); err != nil {
+			panic(err)
+		}
+		sa, err := syscall.Getsockname(fd)
+		if err != nil {
+			panic(err)
+		}
+		u.boundFD = fd
+		u.uri = fmt.Sprintf("http://127.0.0.1:%d", sa.(*syscall.SockaddrInet4).Port)
 		return u
 	}
 	u.srv = httptest.NewServer(http.HandlerFunc(func(w http.ResponseWriter, r *http.Request) {
@@ -129,6 +139,9 @@ func newUpstream(idx int, m mode) *upstream {
 
 func (u *upstream) close() {
 	close(u.done)
+	if u.boundFD >= 0 {
+		syscall.Close(u.boundFD)
+	}
 	if u.srv != nil {
 		u.srv.CloseClientConnections()
 		u.srv.Close()
